@@ -4,7 +4,9 @@ case = (managers, contexts, pipelines, history)
   managers  : [None | timeout:int]                 None = CacheManager, int = TimedCacheManager(timeout)
   contexts  : [(manager_index, pool:bool)]         pool = Context(pool=SubmitAllPool()) -> _runJob_distributed
   pipelines : [(ctx, partitions, [(tag, fn)])]     tag 0 map, 1 filter, 2 flatMap, 3 persist (fn 0) / cache (fn 1),
-                                                   4 mapPartitions (fn<3) / mapPartitionsWithIndex (fn>=3) with generator fn%3
+                                                   4 mapPartitions (fn<3) / mapPartitionsWithIndex (fn>=3) with generator fn%3,
+                                                   5 element function of (partition index, position, element) fn%3: the index from
+                                                     mapPartitionsWithIndex (fn<3) or from the task context (fn>=3, as zipWithUniqueId)
   history   : [(0, k, j, kind, n)]  action on node j of pipeline k: kind 0 collect, 1 count, 2 take(n), 3 first
               [(1, k, j)] node.unpersist()   [(2, dt)] the clock advances   [(3, mi)] manager.gc()
 
@@ -52,7 +54,10 @@ LIB_FILTER = [lambda x: x % 2 == 0, lambda x: x > 0, lambda x: x % 3 != 0, lambd
               lambda x: x < 2]
 LIB_FLAT = [lambda x: [x, x], lambda x: [], lambda x: [x], lambda x: list(range(x % 3)),
             lambda x: [x, x + 1, x + 2], lambda x: [] if x % 2 == 0 else [x]]
-MAP, FILTER, FLAT, PERSIST, PART = 0, 1, 2, 3, 4
+MAP, FILTER, FLAT, PERSIST, PART, IDX = 0, 1, 2, 3, 4, 5
+
+# functions of (partition index, position in the partition, element)
+LIB_IDX = [lambda i, e, x: x + 10 * i, lambda i, e, x: e * 7 + i, lambda i, e, x: x * (i + 1) + e]
 
 
 # generator functions for mapPartitions / mapPartitionsWithIndex: each consumes the partition ITERATOR in two
@@ -152,6 +157,18 @@ class Run:
                     node = node.filter(self._rec(LIB_FILTER[fn], holder))
                 elif tag == FLAT:
                     node = node.flatMap(self._rec(LIB_FLAT[fn], holder))
+                elif tag == IDX:
+                    g = self._rec(lambda a: a, holder)       # logs the element, like every element function
+                    fi = LIB_IDX[fn % 3]
+                    if fn >= 3:
+                        # the partition identity read from the TASK CONTEXT, as zipWithUniqueId does
+                        from pysparkling.rdd import MapPartitionsRDD
+                        node = MapPartitionsRDD(
+                            node, lambda tc, i, x, fi=fi, g=g: (fi(tc.partition_id, e, g(xx)) for e, xx in enumerate(x)),
+                            preservesPartitioning=True)
+                    else:
+                        node = node.mapPartitionsWithIndex(
+                            lambda i, it, fi=fi, g=g: (fi(i, e, g(xx)) for e, xx in enumerate(it)))
                 elif tag == PART:
                     pf = self._rec_part(LIB_PART[fn % 3], holder)
                     if fn >= 3:
@@ -277,7 +294,7 @@ def impl(case):
 
 
 # ------------------------------------------------------------------ oracle (implementation only)
-def _plain(stages, xs):
+def _plain(stages, xs, i=0):
     for tag, fn in stages:
         if tag == MAP:
             xs = [LIB_MAP[fn](x) for x in xs]
@@ -287,6 +304,8 @@ def _plain(stages, xs):
             xs = [y for x in xs for y in LIB_FLAT[fn](x)]
         elif tag == PART:
             xs = list(LIB_PART[fn % 3](iter(xs)))
+        elif tag == IDX:
+            xs = [LIB_IDX[fn % 3](i, e, x) for e, x in enumerate(xs)]
     return xs
 
 
@@ -319,7 +338,7 @@ def oracle(case, result):
             _, k, j, kind, n = a
             cx, parts, stages = pipelines[k]
             mi = contexts[cx][0]
-            ref = [_plain(stages[:j], p) for p in parts]
+            ref = [_plain(stages[:j], p, i) for i, p in enumerate(parts)]
             flat = [x for p in ref for x in p]
             want = (flat if kind == 0 else len(flat) if kind == 1 else flat[:n] if kind == 2
                     else ((flat[0],) if flat else Err('StopIteration')))
@@ -356,7 +375,7 @@ def oracle(case, result):
             _, k, j = a
             cx, parts, stages = pipelines[k]
             mi = contexts[cx][0]
-            contents = [x for p in parts for x in _plain(stages[:j], p)]
+            contents = [x for i, p in enumerate(parts) for x in _plain(stages[:j], p, i)]
             if r[1] != contents:
                 return ('unpersist:contents-differ', f'step {t} {a}: returned dataset contains {r[1]!r}, '
                                                      f'the dataset contained {contents!r}')
@@ -426,7 +445,7 @@ def kind(case):
 
 
 def _rand_stage(rng):
-    tag = rng.choice([MAP, MAP, MAP, FILTER, FILTER, FLAT, FLAT, PART])
+    tag = rng.choice([MAP, MAP, MAP, FILTER, FILTER, FLAT, FLAT, PART, IDX, IDX])
     return (tag, rng.randrange(6))
 
 
@@ -505,10 +524,10 @@ def _exhaustive(rng, tier):
     length <= 3 over: collect/first/take(1)/take(2) on the last node, collect on node 1, unpersist of
     each persisted node, advance(2), gc."""
     cases = []
-    stage_sets = [[(MAP, 0), (FILTER, 0)], [(MAP, 0), (PART, 0)], [(FLAT, 0), (MAP, 1)], [(PART, 4), (PART, 2)]]
+    stage_sets = [[(MAP, 0), (FILTER, 0)], [(MAP, 0), (PART, 0)], [(IDX, 4), (FILTER, 0)], [(FLAT, 0), (MAP, 1)], [(PART, 4), (PART, 2)], [(IDX, 0), (IDX, 5)]]
     worlds = [([None], [(0, False)]), ([2], [(0, False)])]
     if tier == 'quick':
-        stage_sets = stage_sets[:2]
+        stage_sets = stage_sets[:3]
     for st in stage_sets:
         for managers, contexts in worlds:
             for marks in itertools.product([False, True], repeat=3):
@@ -554,6 +573,12 @@ CORPUS = [
      [(0, 0, 3, 0, 0), (0, 0, 3, 0, 0), (0, 0, 3, 3, 0)]),
     ([None], [(0, True)], [(0, [[1, 2, 3], [4]], [(PERSIST, 0), (PART, 4), (PERSIST, 1), (PART, 5)])],
      [(0, 0, 2, 2, 1), (0, 0, 4, 0, 0), (0, 0, 4, 0, 0), (0, 0, 2, 0, 0)]),
+    # functions of the partition identity (split index / task context's partition id) upstream of persist marks,
+    # several partitions, stacked persists, persisted children
+    ([None], [(0, False)], [(0, [[1, 2], [3, 4], [5]], [(IDX, 4), (PERSIST, 0), (MAP, 0), (PERSIST, 1), (IDX, 0)])],
+     [(0, 0, 2, 0, 0), (0, 0, 2, 0, 0), (0, 0, 5, 0, 0), (0, 0, 4, 2, 3), (0, 0, 1, 0, 0)]),
+    ([5], [(0, True)], [(0, [[1, 2], [3, 4]], [(IDX, 3), (FILTER, 4), (PERSIST, 0), (IDX, 5), (PERSIST, 0)])],
+     [(0, 0, 5, 3, 0), (0, 0, 5, 0, 0), (0, 0, 3, 0, 0), (1, 0, 3), (0, 0, 5, 0, 0), (0, 0, 3, 0, 0)]),
     # partition functions (header + rest, next + rest) directly on the source, with and without persist in front
     ([None], [(0, False)], [(0, [[1, 2, 3, 4], [5, 6, 7]], [(PART, 0), (PERSIST, 0)]),
                             (0, [[1, 2, 3, 4], [5, 6, 7]], [(PERSIST, 0), (PART, 0)]),
@@ -615,6 +640,7 @@ def extra_checks(rng, tier, workdir):
     yield from _source_iterator_check()
     yield from _fault_checks(rng, tier)
     yield from _failed_job_checks(rng, tier)
+    yield from _api_identity_checks(rng, tier)
     yield from _threadpool_checks(rng, tier)
 
 
@@ -689,7 +715,7 @@ def _fault_checks(rng, tier):
         CLOCK.t = 0
         parts = [[rng.randint(-3, 6) for _ in range(rng.choice([1, 2, 3, 4]))] for _ in range(rng.choice([1, 2, 3]))]
         stages = [_rand_stage(rng) for _ in range(rng.choice([1, 2, 3, 4]))]
-        stages = [(MAP, fn) if tag == PART else (tag, fn) for tag, fn in stages]
+        stages = [(MAP, fn) if tag in (PART, IDX) else (tag, fn) for tag, fn in stages]
         q = rng.randrange(len(stages))
         stages[q] = (MAP, stages[q][1])                       # the faulty stage
         # persist marks: at least one downstream of the faulty stage
@@ -887,6 +913,99 @@ def _failed_job_checks(rng, tier):
                 yield (fail[0], 'faults downstream of a persist mark', fail[1], case)
     finally:
         CacheManager.add = orig_add
+
+
+def _api_identity_checks(rng, tier):
+    """The real API transformations whose function depends on the task context / partition identity --
+    zipWithUniqueId, mapPartitionsWithIndex, zipWithIndex, sample(seed), glom, coalesce, repartition -- UPSTREAM
+    of persist marks (directly or after further map/filter steps, stacked marks, persisted children), on
+    datasets with >= 2 partitions.  The statement itself: every action's result with the persist marks inserted
+    equals the result of the same pipeline without any persist, on the cache-filling action and on every later
+    one; the ids of zipWithUniqueId are pairwise distinct.  Oracle only (elements are tuples/lists; zipWithIndex
+    and coalesce run jobs / change the partitioning and are outside the linear-pipeline model)."""
+    _install()
+
+    def build(sc, parts, steps, persist):
+        node = sc._parallelize_partitions([list(p) for p in parts])   # pylint: disable=protected-access
+        nodes = [node]
+        for kind, arg, mark in steps:
+            if kind == 'uid':
+                node = node.zipWithUniqueId()
+            elif kind == 'index':
+                node = node.zipWithIndex()
+            elif kind == 'mpwi':
+                node = node.mapPartitionsWithIndex(lambda i, it: ((i, x) for x in it))
+            elif kind == 'sample':
+                node = node.sample(False, 0.6, seed=arg)
+            elif kind == 'glom':
+                node = node.glom()
+            elif kind == 'coalesce':
+                node = node.coalesce(arg)
+            elif kind == 'repartition':
+                node = node.repartition(arg)
+            elif kind == 'map':
+                node = node.map(lambda x: (x, 'm'))
+            elif kind == 'filter':
+                node = node.filter(lambda x: hash(repr(x)) % 5 != 0)
+            for _ in range(mark if persist else 0):
+                node = node.persist()
+            nodes.append(node)
+        return nodes
+
+    def act(node, a):
+        try:
+            if a[0] == 'collect':
+                return node.collect()
+            if a[0] == 'count':
+                return node.count()
+            if a[0] == 'take':
+                return node.take(a[1])
+            return node.first()
+        except StopIteration:
+            return 'StopIteration'
+        except Exception as e:  # pylint: disable=broad-except
+            return f'raised {type(e).__name__}'
+
+    for _ in range(120 if tier == 'quick' else 2000):
+        CLOCK.t = 0
+        parts = [[rng.randint(0, 9) for _ in range(rng.choice([0, 1, 2, 3, 4]))] for _ in range(rng.choice([2, 3, 4]))]
+        steps = []
+        for pos in range(rng.choice([1, 2, 3, 4])):
+            kind = rng.choice(['uid', 'uid', 'uid', 'mpwi', 'mpwi', 'index', 'sample', 'glom', 'coalesce',
+                               'repartition', 'map', 'filter', 'filter'])
+            arg = rng.randint(0, 99) if kind == 'sample' else rng.choice([1, 2, 3])
+            steps.append((kind, arg, rng.choice([0, 0, 1, 1, 2])))
+        if not any(st[2] for st in steps):
+            steps[-1] = steps[-1][:2] + (1,)
+        if not any(st[0] in ('uid', 'mpwi', 'index', 'sample', 'glom', 'coalesce', 'repartition') for st in steps):
+            steps[0] = ('uid', 1, steps[0][2])
+        history = []
+        for _ in range(rng.randint(2, 5)):
+            history.append((rng.randint(1, len(steps)), rng.choice([('collect',), ('collect',), ('count',),
+                                                                   ('take', rng.choice([1, 2, 5])), ('first',)])))
+        tmo = rng.choice([None, None, 50])
+        pool = rng.random() < 0.25
+        case = ('api-identity', tmo, pool, parts, steps, history)
+
+        def ctx():
+            m = CacheManager() if tmo is None else TimedCacheManager(timeout=tmo)
+            return Context(cache_manager=m, pool=SubmitAllPool() if pool else None)
+        plain = build(ctx(), parts, steps, False)
+        cached = build(ctx(), parts, steps, True)
+        fail = None
+        for t, (j, a) in enumerate(history):
+            want, got = act(plain[j], a), act(cached[j], a)
+            if got != want:
+                fail = ('persist:result-differs-from-pipeline-without-persist',
+                        f'step {t}: {a} on node {j} ({steps[j - 1][0]}): with persist {got!r}, without {want!r}')
+                break
+            if a[0] == 'collect' and steps[j - 1][0] == 'uid' and isinstance(got, list):
+                uids = [p[1] for p in got]
+                if len(set(uids)) != len(uids):
+                    fail = ('zipWithUniqueId:duplicate-id', f'step {t}: ids {uids}')
+                    break
+        if fail:
+            yield (fail[0], 'task-context / partition-identity dependent transformation upstream of persist()', fail[1], case)
 
 
 def _source_iterator_check():
